@@ -96,6 +96,30 @@ def check(rep, tier, seed):
             bad.append((C.codec_line(c), a, "encoding panicked"))
         elif a.startswith("err ") and len(a.split(" ; ")[0].split(" ")) > 2:
             bad.append((C.codec_line(c), a, "a failed encoding handed back bytes"))
+    # transient constructors through the real derive macro (static route): every constructor of every catalogue enum
+    # that has a transient one - the transient ones are reported with the dedicated error naming type and constructor
+    # (never written, never a panic), the others encode
+    from .. import catalogue as K
+    from . import c13
+    cenv = K.load()
+    tcs, texp = [], []
+    for i, d in enumerate(cenv):
+        if d["kind"] != "enum" or not any(v["transient"] for v in d["variants"]):
+            continue
+        for j, v in enumerate(d["variants"]):
+            for _ in range(3 if tier == "quick" else 30):
+                tcs.append({"cmd": "srt", "w": i, "val": c13.variant_value(rng, cenv, i, j), "sfx": "-"})
+                texp.append((d["name"], v["name"], bool(v["transient"])))
+    tbad, tdis, tl, timpl = R.static_block(harness, model, C.workdir("C17s"), tcs, cenv, "tc", lambda c, a: (True, ""))
+    dis += tdis
+    for (tn, vn, tr), l, a in zip(texp, tl, timpl):
+        enc_part = a.split(" ; ")[0]
+        want = f"err SerTransientCtor({vn.encode().hex()},{tn.encode().hex()})"
+        if tr and enc_part != want:
+            bad.append((l, a, f"a transient constructor is not reported as {want}"))
+        if not tr and not enc_part.startswith("ok ") and enc_part != "err UnsupportedCharacter":
+            bad.append((l, a, "a constructor that is not transient is refused"))
+    rep.coverage["transient_constructor_cases_static"] = len(tcs)
     C.proof_coverage(rep, ob, "C17")
     lines = [C.codec_line(c) for c in cases]
     rep.coverage.update({
